@@ -469,7 +469,9 @@ MetaOK(o) == MetaBad(o) = {}
 
 (* The no-CT law on abstract extension lists: deleting the CT extensions from a list into which
    they were inserted gives the original list, wherever they were inserted. *)
-IsCT(x) == x \in {"poison", "sct", "sct0"}
+\* CT extensions are recognised by their OID alone: a poison that is not marked critical ("poisonnc")
+\* and an SCT list that is ("sctc") are stripped like the usual forms
+IsCT(x) == x \in {"poison", "sct", "sct0", "poisonnc", "sctc"}
 NotCT(x) == ~IsCT(x)
 StripCT(exts) == SelectSeq(exts, NotCT)
 InsAt(s, pos, x) == SubSeq(s, 1, pos - 1) \o <<x>> \o SubSeq(s, pos, Len(s))
